@@ -29,6 +29,32 @@ fn load() -> wowm::Corpus {
 fn calibrate() {
     let corpus = load();
     eprintln!("files={} definers={} containers={} tests={}", corpus.files, corpus.definers.len(), corpus.containers.len(), corpus.tests.len());
+    for v in [2u8, 3, 5, 6, 7, 8] {
+        let m = match Model::new(&corpus, Target::Login(v)) {
+            Ok(m) => m,
+            Err(e) => {
+                eprintln!("login model error {}", e);
+                std::process::exit(2);
+            }
+        };
+        for dir in [Dir::Client, Dir::Server] {
+            let msgs = m.messages_dir(dir);
+            let mut bad = Vec::new();
+            for c in &msgs {
+                for i in 0..10u64 {
+                    let mut rng = Rng::new(rng::run_seed(1, &c.name, i));
+                    if let Err(e) = m.encode(c, &mut rng, &Knobs::default()) {
+                        bad.push(format!("{} UNMODELLED {}", c.name, e));
+                        break;
+                    }
+                }
+            }
+            eprintln!("login{} {}: messages={} unmodelled={}", v, dir.name(), msgs.len(), bad.len());
+            for b in bad {
+                eprintln!("   {}", b);
+            }
+        }
+    }
     for exp in Exp::ALL {
         let m = match Model::new(&corpus, Target::World(exp)) {
             Ok(m) => m,
